@@ -36,27 +36,28 @@ def value_for(rng, e, fmt=None):
             known = [c for c in allowed if c in ('D8', 'RD8', 'DT', 'D6', 'TM')]
             fmt = known[0] if known else fmt
     if fmt in ('D8', 'DT'):
-        return '20040229'
+        return rng.choice(DATES8)
     if fmt == 'RD8':
-        return '20040101-20040131'
+        return rng.choice(['20040101-20040131', '20000229-20000301', '19991231-20000101'])
     if fmt == 'D6':
-        return '040229'
+        return rng.choice(['040229', '991231', '000229'])
     if fmt == 'TM':
-        return '1230'
+        return rng.choice([t for t in TIMES if mn <= len(t) <= max(mx, 4)] or ['1230'])
     n = max(mn, 1)
     if ty in ('AN', 'ID', 'B'):
         L = max(n, min(mx, rng.choice([n, n + 1, min(mx, 6)])))
         return ('X' + ''.join(rng.choice('0123456789ABC') for _ in range(L - 1)))[:L]
     if ty == 'DT':
-        return '20040229' if mx >= 8 else '040229'
+        return rng.choice(DATES8) if mx >= 8 else rng.choice(['040229', '991231'])
     if ty == 'D8':
-        return '20040229'
+        return rng.choice(DATES8)
     if ty == 'D6':
-        return '040229'
+        return rng.choice(['040229', '991231'])
     if ty == 'RD8':
-        return '20040101-20040131'
+        return rng.choice(['20040101-20040131', '20000229-20000301'])
     if ty == 'TM':
-        return '1230' if mx >= 4 else '12'
+        # every legal shape of an X12 time that fits: HHMM, HHMMSS, HHMMSSD, HHMMSSDD
+        return rng.choice([t for t in TIMES if mn <= len(t) <= mx] or ['1230']) if mx >= 4 else '12'
     if ty == 'R':
         digits = ''.join(rng.choice('123456789') for _ in range(n))
         if mx > n and rng.random() < 0.5:
@@ -74,6 +75,10 @@ def nonempty_segment(rng, node, d, over=None):
         if d[1] in s and s.split(d[1], 1)[1].replace(d[1], '').replace(d[2], '') != '':
             return s
     return walk_gen.make_segment(rng, node, d, over, p_opt=1.0)
+
+
+DATES8 = ['20040229', '19991231', '20000229', '18000101', '20231130', '20040131', '99991231']
+TIMES = ['1230', '0000', '2359', '123059', '000000', '235959', '1526305', '2359599', '12305999', '00000000']
 
 
 class Body(walk_gen.Body):
